@@ -145,3 +145,93 @@ def propagate_with_burns(y0, t_end, mu, burns=(), impulses=(), hmax=1.0):
             t = stop
     y = tb.propagate_uv(y, t_end - t, mu)
     return np.asarray(y, float), err
+
+
+# ---------------------------------------------------------------- several thrusts firing at the same time
+
+
+def _thrust_inertial(y, acc, frame):
+    """inertial components of the acceleration `acc` given along `frame` axes (None, 'QSW', 'TNW') at state y"""
+    if frame is None:
+        return acc
+    x, yy, z, vx, vy, vz = y
+    hx, hy, hz = yy * vz - z * vy, z * vx - x * vz, x * vy - yy * vx
+    hn = math.sqrt(hx * hx + hy * hy + hz * hz)
+    wx, wy, wz = hx / hn, hy / hn, hz / hn
+    if frame == "QSW":
+        n = math.sqrt(x * x + yy * yy + z * z)
+        qx, qy, qz = x / n, yy / n, z / n
+    else:
+        n = math.sqrt(vx * vx + vy * vy + vz * vz)
+        qx, qy, qz = vx / n, vy / n, vz / n
+    sx, sy, sz = wy * qz - wz * qy, wz * qx - wx * qz, wx * qy - wy * qx
+    return (acc[0] * qx + acc[1] * sx + acc[2] * wx,
+            acc[0] * qy + acc[1] * sy + acc[2] * wy,
+            acc[0] * qz + acc[1] * sz + acc[2] * wz)
+
+
+def _deriv_multi(y, mu, thrusts):
+    """central gravity + the SUM of the accelerations of every thrust of the list [(acc, frame), ...]"""
+    x, yy, z, vx, vy, vz = y
+    r2 = x * x + yy * yy + z * z
+    k = -mu / (r2 * math.sqrt(r2))
+    ax, ay, az = k * x, k * yy, k * z
+    for acc, frame in thrusts:
+        tx, ty, tz = _thrust_inertial(y, acc, frame)
+        ax += tx
+        ay += ty
+        az += tz
+    return (vx, vy, vz, ax, ay, az)
+
+
+def _rk4_multi(y, h, mu, thrusts):
+    k1 = _deriv_multi(y, mu, thrusts)
+    k2 = _deriv_multi(tuple(a + 0.5 * h * b for a, b in zip(y, k1)), mu, thrusts)
+    k3 = _deriv_multi(tuple(a + 0.5 * h * b for a, b in zip(y, k2)), mu, thrusts)
+    k4 = _deriv_multi(tuple(a + h * b for a, b in zip(y, k3)), mu, thrusts)
+    return tuple(a + h / 6.0 * (p + 2 * q + 2 * r + s) for a, p, q, r, s in zip(y, k1, k2, k3, k4))
+
+
+def burn_multi(y, duration, mu, thrusts, hmax=1.0, tol_v=1e-7):
+    """State after `duration` seconds during which every thrust of `thrusts` = [(acc, frame), ...] fires (the
+    accelerations add up, each along its own axes).  Same scheme and error estimate as `burn`."""
+    thrusts = [(tuple(float(c) for c in a), f.upper() if isinstance(f, str) else None) for a, f in thrusts]
+    y = tuple(float(c) for c in y)
+    n = max(1, int(math.ceil(duration / hmax)))
+
+    def fixed(m):
+        s, hh = y, duration / m
+        for _ in range(m):
+            s = _rk4_multi(s, hh, mu, thrusts)
+        return s
+
+    coarse = fixed(n)
+    for _ in range(4):
+        fine = fixed(2 * n)
+        dr = math.sqrt(sum((a - b) ** 2 for a, b in zip(coarse[:3], fine[:3]))) / 15
+        dv = math.sqrt(sum((a - b) ** 2 for a, b in zip(coarse[3:], fine[3:]))) / 15
+        rr = math.sqrt(sum(c * c for c in fine[:3]))
+        vv = math.sqrt(sum(c * c for c in fine[3:]))
+        err = max(dr * vv / rr, dv)
+        if err <= tol_v:
+            break
+        coarse, n = fine, 2 * n
+    return np.array([f + (f - c) / 15 for f, c in zip(fine, coarse)]), err
+
+
+def propagate_with_schedule(y0, t_end, mu, burns, hmax=1.0):
+    """State at t_end under burns = [(t_start, t_stop, acc, frame), ...] that MAY overlap: the time line is cut at
+    every edge; between two cuts the set of firing thrusts is fixed and their accelerations add up."""
+    cuts = sorted({0.0, float(t_end)} | {min(max(float(t), 0.0), float(t_end)) for b in burns for t in b[:2]})
+    y = np.asarray(y0, float)
+    err = 0.0
+    for a, b in zip(cuts, cuts[1:]):
+        if b <= a:
+            continue
+        active = [(bb[2], bb[3]) for bb in burns if bb[0] <= a and b <= bb[1]]
+        if active:
+            y, e = burn_multi(y, b - a, mu, active, hmax=hmax)
+            err = max(err, e)
+        else:
+            y = tb.propagate_uv(y, b - a, mu)
+    return np.asarray(y, float), err
